@@ -12,8 +12,8 @@ from .execution import (
     Executor,
     GraphQLResult,
     Instrumentation,
-    execute,
 )
+from .execution.execute import prepare_execution
 from .execution.runtime import AsyncIORuntime, BlockingRuntime, Runtime
 from .lang import parse
 from .lang.ast import Document
@@ -129,28 +129,28 @@ def process_graphql_query(
         return _abort(errors=validation_result.errors)
 
     try:
-        return runtime.map_value(
-            execute(
-                schema,
-                ast,
-                operation_name=operation_name,
-                variables=variables,
-                initial_value=root,
-                context_value=context,
-                instrumentation=instrumentation,
-                middlewares=middlewares,
-                disable_introspection=disable_introspection,
-                executor_cls=executor_cls,
-                runtime=runtime,
-            ),
-            _on_end,
+        run = prepare_execution(
+            schema,
+            ast,
+            operation_name=operation_name,
+            variables=variables,
+            initial_value=root,
+            context_value=context,
+            instrumentation=instrumentation,
+            middlewares=middlewares,
+            disable_introspection=disable_introspection,
+            executor_cls=executor_cls,
+            runtime=runtime,
         )
     except VariablesCoercionError as err:
         return _abort(data=None, errors=err.errors)
     except InvalidOperationError as err:
-        # Operation selection failed, nothing has been executed. Any other
-        # exception comes out of a resolver and is not a response error.
+        # Operation selection failed, nothing has been executed.
         return _abort(data=None, errors=[err])
+
+    # Whatever is raised from here on comes out of a resolver and is not a
+    # response error, whichever class it is.
+    return runtime.map_value(run(), _on_end)
 
 
 async def graphql(
